@@ -7,7 +7,7 @@ import traceback
 HERE = os.path.dirname(os.path.abspath(__file__))
 sys.path.insert(0, HERE)
 
-SESSION = ('C01', 'C02', 'C03', 'C05', 'C10', 'C12', 'C13', 'C18')
+SESSION = ('C01', 'C02', 'C03', 'C05', 'C10', 'C12', 'C13', 'C16', 'C18')
 
 
 def main():
